@@ -4,7 +4,7 @@ from multiprocessing import Pool
 import numpy as np
 import math
 from panoptica.utils.constants import CCABackend
-from panoptica.utils.numpy_utils import _get_bbox_nd
+from panoptica.utils.numpy_utils import _get_bbox_nd, _get_smallest_fitting_uint
 
 if TYPE_CHECKING:
     from panoptica.metrics import Metric
@@ -91,12 +91,15 @@ def _map_labels(
     Returns:
         np.ndarray: Returns a copy of the remapped array
     """
-    k = np.array(list(label_map.keys()), dtype=arr.dtype)
-    v = np.array(list(label_map.values()), dtype=arr.dtype)
+    max_value = (
+        int(max(arr.max(), max(label_map.keys()), max(label_map.values()))) + 1
+    )
+    # relabel in a dtype that can hold every key and value (no wrap-around)
+    dtype = np.promote_types(arr.dtype, _get_smallest_fitting_uint(max_value - 1))
+    k = np.array(list(label_map.keys()), dtype=dtype)
+    v = np.array(list(label_map.values()), dtype=dtype)
 
-    max_value = max(arr.max(), max(k), max(v)) + 1
-
-    mapping_ar = np.arange(max_value, dtype=arr.dtype)
+    mapping_ar = np.arange(max_value, dtype=dtype)
     mapping_ar[k] = v
     return mapping_ar[arr]
 
